@@ -59,6 +59,7 @@ var realStub = map[string]string{
 	"x/crisis MsgVerifyInvariant, x/group proposals (EXEC_TRY) carrying custom messages, bank MsgSetSendEnabled and community-pool spends through x/gov, x/authz grants and MsgExec": "real (SDK modules inside the real app, driven by signed transactions)",
 	"host environment of a node (HOME, USER, locale, cosmovisor and PANACEAD_* variables, working directory, GOMAXPROCS, local time zone, app.toml service options)": "simulated per replica inside one process (set around application construction and block execution of each non-reference replica); host name, CPU count and process id are common to all replicas and not varied",
 	"wall clock":                                                             "real (simulated time = block header time)",
+	"database left by the previous release (for the store-adding upgrade v2.2.0)": "stub: fabricated from a chain of this binary (the stores the release adds are taken out of the last commit info and their nodes deleted; the module version map is not rewound); store loader, upgrade-info.json parsing, handler and migrations: real",
 }
 
 func writeEvidence(prop, tier string, seed uint64, results []*RunResult, nviol int, wall float64, tc tierCfg, extra map[string]interface{}) error {
